@@ -232,6 +232,10 @@ def check_typeinfo(ctx, rule="TAB-TI"):
                 if ("FixedPoint" in kname) != bool(fixp):
                     R.violation(rule, "%s|fixp|%s" % (TI_DEC, kname), "kind %s decoded with FIXP bit = %s" % (kname, fixp), function=TI_DEC, file=fl, line=ln)
                     continue
+            # reserved bits: no row of the decoder may be selected by a bit the format leaves unused for every kind
+            rsv = sorted(i for i in known if i in ALWAYS_UNUSED)
+            if rsv:
+                R.violation(rule, "%s|reserved|%s" % (TI_DEC, kname), "the decoded value of a %s type info depends on reserved bit(s) %s of the word (the format ignores bits 14 and 18..31): words an ECU emits with such a bit set are decoded differently [%s]" % (kname, rsv, row), function=TI_DEC, file=fl, line=ln)
             # field provenance: VARI bit 11, TRAI bit 13, SCOD bits 15..17
             for fname, idx, bit in (("has_variable_info", i_vari, 11), ("has_trace_info", i_trai, 13)):
                 fv = val.fields[idx]
